@@ -149,3 +149,133 @@ Example format_agrees_instance :
   get_command_options b true = [add; add; add; help; help]
   end.
 Proof. vm_compute. repeat split; reflexivity. Qed.
+
+(* ==== added after the Coq review (REPORT "C06: minor issues" 1-4) ====
+   Note on rejected_add_leaves_builder_unchanged above: it is fst (lift (Err k) f) = f, true by the definition of lift;
+   its content is the SHAPE of the model - every add_* checks before it mutates - which is the shape of
+   ArgsFormatBuilder.add_option / add_argument / add_command_option (all checks precede the first assignment). *)
+From Clikit Require Import Model.Flags Proofs.FmtOkLemmas Proofs.FormatWfLemmas.
+
+(* "constructing directly enforces the same rules": ArgsFormat(elements, base) is well-formed ... *)
+Theorem format_of_elements_wf : forall es base f,
+  match base with Some b => wf b | None => True end -> forallb element_valid es = true ->
+  format_of_elements es base = Ok f -> wf f.
+Proof. exact format_of_elements_wf_lemma. Qed.
+Print Assumptions format_of_elements_wf.
+(* ... because it IS the builder route *)
+Theorem format_of_elements_is_built : forall es base f,
+  format_of_elements es base = Ok f -> f = build_format (brun (empty_builder base) (map op_of_element es)).
+Proof. exact format_of_elements_is_built_lemma. Qed.
+Print Assumptions format_of_elements_is_built.
+(* a builder over a well-formed (or no) base, any valid operations, then .format: well-formed *)
+Theorem built_format_wf : forall base ops,
+  match base with Some b => wf b | None => True end -> forallb bop_valid ops = true ->
+  wf (build_format (brun (empty_builder base) ops)).
+Proof. exact built_format_wf_lemma. Qed.
+Print Assumptions built_format_wf.
+(* an API-built format used as a base and built on again *)
+Theorem stacked_wf : forall ops0 ops1,
+  forallb bop_valid ops0 = true -> forallb bop_valid ops1 = true ->
+  wf (build_format (brun (empty_builder (Some (build_format (brun (empty_builder None) ops0)))) ops1)).
+Proof. exact stacked_wf_lemma. Qed.
+Print Assumptions stacked_wf.
+(* any depth of stacking (api_format: Proofs/FmtOkLemmas.v) *)
+Theorem api_format_wf : forall f, api_format f -> wf f.
+Proof. exact api_format_wf_lemma. Qed.
+Print Assumptions api_format_wf.
+
+(* the hypothesis bop_valid / element_valid - an added argument carries exactly one of REQUIRED / OPTIONAL - is what the
+   constructor Argument() of C07 guarantees (mk_argument: Model/Flags.v; the default value plays no role) *)
+Theorem constructed_arg_valid : forall n f d o dv,
+  mk_argument n f d = Ok o -> arg_valid (arg_of_obj o dv) = true.
+Proof. exact constructed_arg_valid_lemma. Qed.
+Print Assumptions constructed_arg_valid.
+Theorem constructed_arg_bop_valid : forall n f d o dv,
+  mk_argument n f d = Ok o -> bop_valid (AddArgument (arg_of_obj o dv)) = true /\ element_valid (EArg (arg_of_obj o dv)) = true.
+Proof. exact constructed_args_bop_valid_lemma. Qed.
+Print Assumptions constructed_arg_bop_valid.
+(* the hypothesis is necessary: an object no constructor yields (neither REQUIRED nor OPTIONAL) breaks the order rule *)
+Example unvalidated_argument_breaks_order :
+  let a0 := {| a_name := [97]%N; a_flags := 0; a_default := VNone |} in
+  let a1 := {| a_name := [98]%N; a_flags := 1; a_default := VNone |} in
+  arg_valid a0 = false /\
+  snd (bstep (fst (bstep (empty_builder None) (AddArgument a0))) (AddArgument a1)) = None /\
+  order_ok (args_of (brun (empty_builder None) [AddArgument a0; AddArgument a1])) = false.
+Proof. exact FormatWfExamples.unvalidated_argument_breaks_order. Qed.
+Print Assumptions unvalidated_argument_breaks_order.
+Example constructed_arg_instance :
+  match mk_argument (NStr [112;111;114;116]%N) 66 DNone with
+  | Ok o => ao_flags o = 66%Z /\ arg_valid (arg_of_obj o VNone) = true /\ bop_valid (AddArgument (arg_of_obj o VNone)) = true
+  | Err _ => False end /\
+  match mk_argument (NStr [120]%N) 0 DNone with
+  | Ok o => ao_flags o = 18%Z /\ arg_valid (arg_of_obj o VNone) = true | Err _ => False end /\
+  mk_argument (NStr [120]%N) 3 DNone = Err ValueError.
+Proof. exact FormatWfExamples.constructed_instance. Qed.
+Print Assumptions constructed_arg_instance.
+
+(* "as the listed elements imply": the listings are in insertion order.
+   fmt_inv (Proofs/FmtOkLemmas.v; kept by every builder operation, C01.fmt_inv_step / reachable_fmt_ok) is wf's args_wf
+   plus: arguments and options are listed under their own (long) names and no listed option shares a name with another,
+   also across the base chain.  With include_base: arguments and command names list the BASE's first, options and command
+   options the OWN first (ArgsFormat.get_arguments: base.update(own); get_options: own.update(base)). *)
+Theorem listing_order : forall f, fmt_inv f ->
+  get_arguments f true = match f_base f with Some bf => get_arguments bf true | None => [] end ++ get_arguments f false /\
+  get_command_names f true = match f_base f with Some bf => get_command_names bf true | None => [] end ++ get_command_names f false /\
+  get_options f true = get_options f false ++ match f_base f with Some bf => get_options bf true | None => [] end /\
+  get_command_options f true = get_command_options f false ++ match f_base f with Some bf => get_command_options bf true | None => [] end.
+Proof. exact listing_order_lemma. Qed.
+Print Assumptions listing_order.
+(* an accepted addition goes to the end of the own listing and leaves the other listings alone (any builder state) *)
+Theorem accepted_argument_is_listed_last : forall f a f', add_argument f a = Ok f' ->
+  get_arguments f' false = get_arguments f false ++ [(a_name a, a)] /\ get_options f' false = get_options f false /\
+  get_command_names f' false = get_command_names f false.
+Proof. exact add_argument_appends. Qed.
+Print Assumptions accepted_argument_is_listed_last.
+Theorem accepted_option_is_listed_last : forall f o f', add_option f o = Ok f' ->
+  get_options f' false = get_options f false ++ [(o_long o, o)] /\ get_arguments f' false = get_arguments f false /\
+  get_command_names f' false = get_command_names f false.
+Proof. exact add_option_appends. Qed.
+Print Assumptions accepted_option_is_listed_last.
+Theorem accepted_command_name_is_listed_last : forall f c f', add_command_name f c = Ok f' ->
+  get_command_names f' false = get_command_names f false ++ [c] /\ get_arguments f' false = get_arguments f false /\
+  get_options f' false = get_options f false.
+Proof. exact add_cname_appends. Qed.
+Print Assumptions accepted_command_name_is_listed_last.
+(* ArgsFormat(elements, base): the own listings are exactly the arguments / options / command names among the elements, in
+   the order given (args_in, opts_in, cnames_in: the sublists of es, keyed by name / long name) *)
+Theorem format_of_elements_lists : forall es base f,
+  match base with Some bf => fmt_inv bf | None => True end -> forallb element_valid es = true ->
+  format_of_elements es base = Ok f ->
+  get_arguments f false = args_in es /\ get_options f false = opts_in es /\ get_command_names f false = cnames_in es /\
+  get_arguments f true = match base with Some bf => get_arguments bf true | None => [] end ++ args_in es /\
+  get_options f true = opts_in es ++ match base with Some bf => get_options bf true | None => [] end /\
+  get_command_names f true = match base with Some bf => get_command_names bf true | None => [] end ++ cnames_in es.
+Proof. exact format_of_elements_lists_lemma. Qed.
+Print Assumptions format_of_elements_lists.
+
+(* Instance.  B = ArgsFormat([server/srv, <host>, --verbose/-v, command option help/-h]);
+   F = ArgsFormat([--force/-f, add, [<port:int>], --quiet/-q, [<files>...]], B).  Both are well-formed, the listings
+   interleave as stated, and the rules are enforced against the base: a required argument after the optional ones, an
+   argument after the inherited-required / own-multi order is broken, an option whose short name the base uses. *)
+Example stacked_format_instance :
+  let B := FormatWfExamples.B in let F := FormatWfExamples.F in
+  wf B /\ wf F /\ f_base F = Some B /\
+  map fst (get_arguments F false) = [a_name FormatWfExamples.port; a_name FormatWfExamples.files] /\
+  map fst (get_arguments F true) = [a_name FormatWfExamples.host; a_name FormatWfExamples.port; a_name FormatWfExamples.files] /\
+  map fst (get_options F false) = [o_long FormatWfExamples.force; o_long FormatWfExamples.quiet] /\
+  map fst (get_options F true) = [o_long FormatWfExamples.force; o_long FormatWfExamples.quiet; o_long FormatWfExamples.verbose] /\
+  get_command_names F true = [FormatWfExamples.server; FormatWfExamples.add] /\
+  format_of_elements (FormatWfExamples.own_es ++ [EArg {| a_name := [120]%N; a_flags := 17; a_default := VNone |}]) (Some B) = Err CannotAddArgument /\
+  format_of_elements [EArg FormatWfExamples.port; EArg FormatWfExamples.host] (Some B) = Err CannotAddArgument /\
+  format_of_elements [EOpt {| o_long := [118;118]%N; o_short := Some [118]%N; o_flags := 134; o_default := VNone |}] (Some B) = Err CannotAddOption.
+Proof. exact FormatWfExamples.stacked_instance. Qed.
+Print Assumptions stacked_format_instance.
+(* OUTSIDE THE MODEL: a negative position.  ArgsFormat.get_argument(-1) answers with Python's negative indexing - the LAST
+   argument (IndexError below -len) - while has_argument(-1) is False; the model totalises get_argument to Err (Other 3)
+   there and the C06 generator asks positions 0..5 only. *)
+Example negative_position_outside_model :
+  has_argument FormatWfExamples.F (APos (-1)) true = false /\ get_argument FormatWfExamples.F (APos (-1)) true = Err (Other 3) /\
+  get_argument FormatWfExamples.F (APos 3) true = Err NoSuchArgument /\
+  get_argument FormatWfExamples.F (APos 2) true = Ok FormatWfExamples.files.
+Proof. vm_compute. repeat split; reflexivity. Qed.
+Print Assumptions negative_position_outside_model.
